@@ -15,7 +15,7 @@ EXPLANATION = (
     "MaxIterations/MaxTime; the result is status != Unsolved; (R3) every cycle folds elapsed time into the root "
     "timer (Timers::suspend) so solve_time advances; (R4) the timer stack is balanced on every path; (R5) the "
     "auxiliary loops are counter-bounded; (R6) dimension checks dominate construction and each relation diverges "
-    "when violated; (R7) the unreachable!() cone methods are dead: guarded by is_symmetric. NOT decided: absence "
+    "when violated; (R7) the unreachable!() cone methods are dead: guarded by is_symmetric, or unreachable from the API roots; (R7b) settings validator and dispatcher accept the same option strings; (R9) P is reduced to its upper triangle and the cone list collapsed before use. NOT decided: absence "
     "of all panics (bounds checks, arithmetic, BLAS failures), termination of data-dependent inner loops.")
 ASSUMPTIONS = [
     'rustc MIR construction and trait resolution are correct',
@@ -115,6 +115,14 @@ def ranking(rep, F, tag):
                     'check_termination does not precede the increment of the iteration counter', f.loc())
         R.check(not _loop_cycles_avoiding(f, h, lbody, {ct.bb}), 'ct-every-cycle' + tag,
                 'there is a cycle of the main loop that does not pass check_termination', f.loc())
+        # a strategy switch resets the status to Unsolved: the limits must be re-tested for the current iteration
+        # count before the counter moves on (check_termination compares max_iter with equality)
+        for sb in sorted(sw_blocks):
+            for b in inc_blocks:
+                R.check(not f.paths_exist_avoiding(sb, b, [ct.bb]), 'retest-after-switch|%d%s' % (sorted(sw_blocks).index(sb), tag),
+                        'after a scaling-strategy switch (status reset to Unsolved) the iteration counter can be incremented without '
+                        'passing check_termination again: a switch on the pass where iterations == max_iter skips the limit for good',
+                        f.loc())
         # a true result of check_termination reaches break or the one Update continuation
         # (checked structurally: the only continue after isdone is a scaling switch block)
         # every Update constructor in the crate carries Dual and is guarded by scaling == PrimalDual
